@@ -172,14 +172,28 @@ package ast
 //@ lemma intervalEqRefl(i Interval): builtBound(i.Start) && builtBound(i.End) ==> i.Equals(i)
 
 // ---- C02 / C04: collecting variables only adds to the given set (ASSUMED: recursive over the term structure) -----
+// occurs(t, v): variable v occurs in term t (abstract; AddVars is its definition).
+//@ spec func occurs(t Term, v Variable) bool
 //@ func AddVars(term, m)
 //@   trusted
 //@   requires m != nil
 //@   modifies m
 //@   ensures forall v Variable :: old(m[v]) ==> m[v]
+//@   ensures forall v Variable :: occurs(term, v) ==> m[v]
 
 // Lookup in a substitution list is a function of the list and the variable (body: linear search, not verified here).
 //@ func (c ConstSubstList) Get(v)
 //@   pure
 //@   trusted
 //@   modifies nothing
+
+// ---- C04: the mode check of a goal ---------------------------------------------------------------------------
+// Accepted means: one mode per argument; an input position holds no free variable; an output position holds a free
+// variable. (free: not in the set of bound variables.)
+//@ spec func freeVar(bound map[Variable]bool, t BaseTerm) bool = t is Variable && (bound == nil || !bound[t as Variable])
+//@ func (m Mode) Check(goal, boundVars)
+//@   modifies nothing
+//@   ensures err == nil ==> len(m) == len(goal.Args)
+//@   ensures err == nil ==> (forall i int :: 0 <= i && i < len(m) ==> (m[i] == ArgModeInput ==> !freeVar(boundVars, goal.Args[i])) && (m[i] == ArgModeOutput ==> freeVar(boundVars, goal.Args[i])))
+//@   loop 1 invariant len(m) == len(goal.Args)
+//@   loop 1 invariant forall i int :: 0 <= i && i < rangeindex + 1 ==> (m[i] == ArgModeInput ==> !freeVar(boundVars, goal.Args[i])) && (m[i] == ArgModeOutput ==> freeVar(boundVars, goal.Args[i]))
